@@ -4,9 +4,9 @@
 (* the decoder's side of the handshake, over abstract signal classes (the   *)
 (* nondeterministic choices h of EncMode!Call) and arbitrary changes of the *)
 (* settings between calls.  Three systems in one module (chosen by INIT /   *)
-(* NEXT in the cfg):                                                        *)
+(* NEXT in the gc):                                                        *)
 (*                                                                         *)
-(*  InitM/NextM   the machine.  State = (cfg, M, D); every call draws *)
+(*  InitM/NextM   the machine.  State = (gc, gm, gd); every call draws *)
 (*                fresh settings from the sets FmSet x FcSet x QS x DtxSet   *)
 (*                (= "any ctl may happen between two frames"), a budget      *)
 (*                class, and every admissible h.  `last' records the step    *)
@@ -15,8 +15,8 @@
 (*  InitR/NextR   the rule tables (WantCelt, BwSetOf, LowPacket) over their *)
 (*                whole argument grid, one state per argument tuple.          *)
 (*  InitGen/NextGen   behaviour generation: every schedule of at most Depth      *)
-(*                steps over the alphabet GenOps (settings change or a run   *)
-(*                of encode calls on a signal class) is printed for replay.  *)
+(*                settings changes over the alphabet GenOps is printed for   *)
+(*                replay (audio is coded before the first and after each).   *)
 (***************************************************************************)
 EXTENDS EncMode, TLC
 CONSTANTS Configs,     \* set of <<Fs, channels, application>>
@@ -28,16 +28,20 @@ CONSTANTS Configs,     \* set of <<Fs, channels, application>>
           AllowDrop,   \* a redundant frame may be dropped for lack of room
           AllowReset,  \* OPUS_RESET_STATE may be issued
           Depth, GenOps
-VARIABLES cfg, M, D, last, hist
+VARIABLES gc, gm, gd, last, hist
 
-vars == <<cfg, M, D, last, hist>>
-View == <<cfg, M, D>>
+vars == <<gc, gm, gd, last, hist>>
+View == <<gc, [gm EXCEPT !.pfq = 0], gd>>       \* pfq (prev_framesize) is never read by the machine
 
 CfgAll == FsSet \X {1, 2} \X Apps
 CfgSix == {<<48000, 2, APP_AUDIO>>, <<48000, 1, APP_VOIP>>, <<16000, 2, APP_VOIP>>, <<12000, 1, APP_AUDIO>>,
            <<8000, 2, APP_AUDIO>>, <<24000, 2, APP_LOWDELAY>>}
 CfgTwo == {<<48000, 2, APP_AUDIO>>, <<16000, 1, APP_VOIP>>}
 CfgLD  == {<<48000, 2, APP_LOWDELAY>>}
+CfgLDA == {<<48000, 2, APP_AUDIO>>, <<48000, 2, APP_LOWDELAY>>}
+CfgOne == {<<48000, 2, APP_AUDIO>>}
+CfgGenQ == {<<48000, 2, APP_AUDIO>>}
+CfgGenT == {<<48000, 2, APP_AUDIO>>, <<16000, 1, APP_VOIP>>}
 FmAll  == {OPUS_AUTO, MODE_SILK, MODE_HYBRID, MODE_CELT}
 FmAuto == {OPUS_AUTO}
 FmCelt == {MODE_CELT}
@@ -52,7 +56,7 @@ SOf(c, fm, fc, dtx) ==
 -----------------------------------------------------------------------------
 (* The machine.                                                            *)
 None == [kind |-> "none"]
-InitM == /\ cfg \in Configs /\ M = MInit(cfg[2]) /\ D = DInit /\ last = None /\ hist = <<>>
+InitM == /\ gc \in Configs /\ gm = MInit(gc[2]) /\ gd = DInit /\ last = None /\ hist = <<>>
 
 \* frame-kind patterns: all coded, all dropped by either DTX, only the first / only the last dropped
 KindPatterns(nf, S, silk) ==
@@ -60,9 +64,6 @@ KindPatterns(nf, S, silk) ==
       all(k) == [i \in 1..nf |-> k]
   IN {all(k) : k \in ks}
      \cup {[all("c") EXCEPT ![1] = k] : k \in ks} \cup {[all("c") EXCEPT ![nf] = k] : k \in ks}
-
-\* only frames that can carry a redundant frame are worth dropping
-DropSets(nf) == IF AllowDrop THEN {{}, {1}, {nf}, {1, nf}} ELSE {{}}
 
 \* feed the frames of a packet to the decoder model
 RECURSIVE DecFrames(_, _, _, _, _)
@@ -74,39 +75,42 @@ DecFrames(d, mode, frames, i, acc) ==
        IN DecFrames(r.D, mode, frames, i + 1, Append(acc, [tr |-> r.tr, red |-> r.red, plc |-> r.plc,
                                                           dreset |-> ~r.plc /\ DecCeltReset(d, mode)]))
 
+\* the choices that cannot matter are fixed (forced channels: sc; forced layer / short frame: wc; CELT-only: sw;
+\* drops: only frames that can carry a redundant frame)
 EncodeNormal ==
-  \E fm \in FmSet, fc \in FcSet, q \in QS, dtx \in DtxSet :
-    /\ fc \in {OPUS_AUTO} \cup 1..cfg[2]
-    /\ \E S \in {SOf(cfg, fm, fc, dtx)}, I \in {[q |-> q, belowT |-> FALSE, rateLow |-> FALSE, lfe |-> 0]} :
-       \E wc \in BOOLEAN, sc \in 1..cfg[2], bw \in BwSet, sw \in {0, 1} :
-         \E d0 \in {CallDecision(M, S, I, [wc |-> wc, sc |-> sc, bw |-> bw])} :
-            /\ d0.bwOK
-            /\ (d0.mode = MODE_CELT => sw = 0)
-            /\ (S.forceChannels # OPUS_AUTO => sc = 1)                                                 \* unused choices
-            /\ (S.forcedMode # OPUS_AUTO \/ S.application = APP_LOWDELAY \/ q < 4 => wc = FALSE)
-            /\ \E kinds \in KindPatterns(NbFr(q, d0.mode), S, d0.mode # MODE_CELT), drops \in DropSets(NbFr(q, d0.mode)) :
-                 \E r \in {Call(M, S, I, [wc |-> wc, sc |-> sc, bw |-> bw, sw |-> sw, kinds |-> kinds, drops |-> drops])} :
-                  \E dr \in {DecFrames(D, r.pk.mode, r.frames, 1, <<>>)} :
+  \E fm \in FmSet, fc \in FcSet \cap ({OPUS_AUTO} \cup 1..gc[2]), q \in QS, dtx \in DtxSet :
+    \E S \in {SOf(gc, fm, fc, dtx)}, I \in {[q |-> q, belowT |-> FALSE, rateLow |-> FALSE, lfe |-> 0]} :
+      \E wc \in (IF fm # OPUS_AUTO \/ gc[3] = APP_LOWDELAY \/ q < 4 THEN {FALSE} ELSE BOOLEAN),
+         sc \in (IF fc # OPUS_AUTO THEN {1} ELSE 1..gc[2]) :
+        \E dd \in {CallDecision(gm, S, I, [wc |-> wc, sc |-> sc, bw |-> BW_NB])} :        \* everything but the bandwidth
+          \E bw \in BwSetOf(gm, S, I, dd.celt) :
+            \E mode \in {IF dd.celt THEN MODE_CELT ELSE IF bw > BW_WB THEN MODE_HYBRID ELSE MODE_SILK} :
+              \E sw \in (IF mode = MODE_CELT THEN {0} ELSE {0, 1}), kinds \in KindPatterns(NbFr(q, mode), S, mode # MODE_CELT) :
+                \E drops \in (IF ~AllowDrop \/ mode = MODE_CELT THEN {{}}
+                              ELSE SUBSET ( (IF gm.bwSwitch = 1 \/ (dd.red0 /\ ~dd.toCelt) THEN {1} ELSE {})
+                                            \cup (IF dd.toCelt \/ sw = 1 THEN {NbFr(q, mode)} ELSE {}) )) :
+                 \E r \in {Call(gm, S, I, [wc |-> wc, sc |-> sc, bw |-> bw, sw |-> sw, kinds |-> kinds, drops |-> drops])} :
+                  \E dr \in {DecFrames(gd, r.pk.mode, r.frames, 1, <<>>)} :
                     /\ r.ok
-                    /\ M' = r.M /\ D' = dr.D
-                    /\ last' = [kind |-> "enc", fm |-> fm, app |-> S.application, q |-> q, pre |-> M, preD |-> D, pk |-> r.pk,
+                    /\ gm' = r.M /\ gd' = dr.D
+                    /\ last' = [kind |-> "enc", fm |-> fm, app |-> S.application, q |-> q, pre |-> gm, preD |-> gd, pk |-> r.pk,
                                 frames |-> r.frames, dec |-> dr.res,
                                 clean |-> (drops = {} /\ \A i \in 1..r.pk.nf : kinds[i] = "c")]
-                    /\ UNCHANGED <<cfg, hist>>
+                    /\ UNCHANGED <<gc, hist>>
 
 EncodeLow ==
   /\ AllowLow
   /\ \E q \in QS, one \in BOOLEAN :
-       LET p == LowPacket(M, q, one)
+       LET p == LowPacket(gm, q, one)
            fr == [i \in 1..p.nf |-> [red |-> FALSE, c2s |-> FALSE, kind |-> "t"]]
-           dr == DecFrames(D, p.mode, fr, 1, <<>>)
+           dr == DecFrames(gd, p.mode, fr, 1, <<>>)
        IN /\ ~(one /\ q = 40)                       \* refused: line 1164
-          /\ M' = M /\ D' = dr.D
-          /\ last' = [kind |-> "low", q |-> q, pre |-> M, preD |-> D, pk |-> p, dec |-> dr.res, one |-> one]
-          /\ UNCHANGED <<cfg, hist>>
+          /\ gm' = gm /\ gd' = dr.D
+          /\ last' = [kind |-> "low", q |-> q, pre |-> gm, preD |-> gd, pk |-> p, dec |-> dr.res, one |-> one]
+          /\ UNCHANGED <<gc, hist>>
 
-ResetM == /\ AllowReset /\ M' = MReset(M, cfg[2]) /\ last' = [kind |-> "reset", pre |-> M]
-          /\ UNCHANGED <<cfg, D, hist>>
+ResetM == /\ AllowReset /\ gm' = MReset(gm, gc[2]) /\ last' = [kind |-> "reset", pre |-> gm]
+          /\ UNCHANGED <<gc, gd, hist>>
 
 NextM == EncodeNormal \/ EncodeLow \/ ResetM
 SpecM == InitM /\ [][NextM]_vars
@@ -119,7 +123,7 @@ InStep(Mx, Dx) == \/ (Mx.prevMode = Dx.prev /\ ~Dx.pred)
                   \/ (Mx.prevMode = Dx.prev /\ Dx.pred /\ Mx.bwSwitch = 1)                             \* SILK bandwidth switch
 X1(e, Mn) == e.pre.bwSwitch = 1 /\ Mn.prevMode = MODE_CELT /\ e.pk.mode # MODE_CELT
 StepTheorems(e, Mn, Dn) ==
-  /\ MTypeOK(Mn, cfg[2])
+  /\ MTypeOK(Mn, gc[2])
   /\ e.kind = "reset" =>
        (Mn.first = 1 /\ Mn.prevMode = 0 /\ Mn.mode = MODE_HYBRID /\ Mn.bw = BW_FB /\ Mn.bwSwitch = 0 /\ Mn.prevCh = 0)
   /\ e.kind = "low" =>
@@ -144,7 +148,7 @@ StepTheorems(e, Mn, Dn) ==
        /\ (e.pk.mode = MODE_HYBRID => e.pk.fq \in {4, 8})
        /\ (e.pk.mode = MODE_SILK => e.pk.fq \in {4, 8, 16, 24})
        /\ (e.pk.mode = MODE_CELT => e.pk.fq \in {1, 2, 4, 8})
-       /\ e.pk.bw <= NyquistBw(cfg[1])
+       /\ e.pk.bw <= NyquistBw(gc[1])
        \* forced mode: CELT is honoured at the latest one call later, SILK/hybrid at once (10 ms and longer)
        /\ (e.fm = MODE_CELT => (e.pk.mode = MODE_CELT \/ (fs[nf].kind # "s" => Mn.prevMode = MODE_CELT)))
        /\ (e.fm \in {MODE_SILK, MODE_HYBRID} /\ e.q >= 4 /\ e.app # APP_LOWDELAY
@@ -188,40 +192,47 @@ StepTheorems(e, Mn, Dn) ==
        \* into CELT-only with frames under 10 ms
        /\ (InStep(e.pre, e.preD) /\ e.clean => \A i \in 1..nf : e.dec[i].tr => (e.q < 4 /\ e.pk.mode = MODE_CELT))
 
-StepOK == [][StepTheorems(last', M', D')]_vars
+StepOK == [][StepTheorems(last', gm', gd')]_vars
 
 \* witness: without the "nothing dropped" premise the lock-step theorem fails (a delayed SILK -> CELT switch whose
 \* redundant frame did not fit: the encoder believes CELT coded the previous frame, the decoder does not)
-LockStepAlways == [][(last'.kind = "enc" /\ InStep(M, D) /\ \A i \in 1..last'.pk.nf : last'.frames[i].kind = "c")
-                       => InStep(M', D')]_vars
+LockStepAlways == [][(last'.kind = "enc" /\ InStep(gm, gd) /\ \A i \in 1..last'.pk.nf : last'.frames[i].kind = "c")
+                       => InStep(gm', gd')]_vars
 
-ResetAgreeAlways == [][(last'.kind = "enc" /\ InStep(M, D) /\ last'.clean /\ last'.pk.nf = 1)
-                         => (EncCeltReset(M.prevMode, last'.pk.mode) <=> last'.dec[1].dreset)]_vars
+ResetAgreeAlways == [][(last'.kind = "enc" /\ InStep(gm, gd) /\ last'.clean /\ last'.pk.nf = 1)
+                         => (EncCeltReset(gm.prevMode, last'.pk.mode) <=> last'.dec[1].dreset)]_vars
 
 \* vacuity guard: these must all be reachable (each invariant below must be VIOLATED in a witness run)
-NoToCeltRed   == ~(last.kind = "enc" /\ last.frames[last.pk.nf].red /\ ~last.frames[last.pk.nf].c2s /\ M.prevMode = MODE_CELT /\ last.pk.nf > 1)
+NoToCeltRed   == ~(last.kind = "enc" /\ last.frames[last.pk.nf].red /\ ~last.frames[last.pk.nf].c2s /\ gm.prevMode = MODE_CELT /\ last.pk.nf > 1)
 NoC2sRed      == ~(last.kind = "enc" /\ last.frames[1].red /\ last.frames[1].c2s /\ last.pre.prevMode = MODE_CELT)
 NoBwSwitchRed == ~(last.kind = "enc" /\ last.pre.bwSwitch = 1 /\ last.frames[1].red /\ last.frames[1].c2s /\ last.pre.prevMode # MODE_CELT)
-NoToMono      == ~(last.kind = "enc" /\ M.toMono = 1)
+NoToMono      == ~(last.kind = "enc" /\ gm.toMono = 1)
 NoTransition  == ~(last.kind = "enc" /\ \E i \in 1..last.pk.nf : last.dec[i].tr)
 
 -----------------------------------------------------------------------------
 (* The rule tables, one state per argument tuple.                          *)
+\* three families; the arguments a rule does not read are held fixed
+RState(c, mode, bw, first, sch, fm, ubw, mxb, q, fec, cx, belowT, rateLow, lfe, one, fam) ==
+  /\ gc = c /\ gd = DInit /\ hist = <<>>
+  /\ gm = [MInit(c[2]) EXCEPT !.mode = mode, !.bw = bw, !.first = first, !.sch = sch]
+  /\ last = [fam |-> fam,
+             S |-> [InitS(c[1], c[2], c[3]) EXCEPT !.forcedMode = fm, !.userBandwidth = ubw, !.maxBandwidth = mxb,
+                     !.fec = fec, !.lossPerc = 20 * fec, !.complexity = cx],
+             I |-> [q |-> q, belowT |-> belowT, rateLow |-> rateLow, lfe |-> lfe], one |-> one]
 InitR ==
-  /\ cfg \in Configs /\ D = DInit /\ hist = <<>>
-  /\ \E mode \in ModeSet, bw \in BwSet, first \in {0, 1}, sch \in 1..cfg[2] :
-       M = [MInit(cfg[2]) EXCEPT !.mode = mode, !.bw = bw, !.first = first, !.sch = sch]
-  /\ \E fm \in FmAll, ubw \in {OPUS_AUTO} \cup BwSet, mxb \in BwSet, q \in QS, fec \in {0, 1}, cx \in {5, 9},
-        belowT \in BOOLEAN, rateLow \in BOOLEAN, lfe \in {0, 1}, one \in BOOLEAN :
-       last = [S |-> [InitS(cfg[1], cfg[2], cfg[3]) EXCEPT !.forcedMode = fm, !.userBandwidth = ubw, !.maxBandwidth = mxb,
-                       !.fec = fec, !.lossPerc = 20 * fec, !.complexity = cx],
-               I |-> [q |-> q, belowT |-> belowT, rateLow |-> rateLow, lfe |-> lfe], one |-> one]
+  \/ \E Fs \in FsSet, bw \in BwSet, first \in {0, 1}, ubw \in {OPUS_AUTO} \cup BwSet, mxb \in BwSet, fec \in {0, 1},
+        cx \in {5, 9}, rateLow \in BOOLEAN, lfe \in {0, 1} :
+        RState(<<Fs, 1, APP_AUDIO>>, MODE_SILK, bw, first, 1, OPUS_AUTO, ubw, mxb, 8, fec, cx, FALSE, rateLow, lfe, FALSE, "bw")
+  \/ \E app \in Apps, fm \in FmAll, q \in QS, belowT \in BOOLEAN, lfe \in {0, 1} :
+        RState(<<48000, 1, app>>, MODE_SILK, BW_FB, 0, 1, fm, OPUS_AUTO, BW_FB, q, 0, 9, belowT, FALSE, lfe, FALSE, "want")
+  \/ \E mode \in ModeSet, bw \in BwSet, sch \in {1, 2}, q \in QS, one \in BOOLEAN :
+        RState(<<48000, 2, APP_AUDIO>>, mode, bw, 0, sch, OPUS_AUTO, OPUS_AUTO, BW_FB, q, 0, 9, FALSE, FALSE, 0, one, "low")
 NextR == UNCHANGED vars
 
 RuleTheorems ==
   LET S == last.S  I == last.I  nyq == NyquistBw(S.Fs) IN
-  /\ \A celt \in BOOLEAN :
-       LET bs == BwSetOf(M, S, I, celt) IN
+  /\ last.fam = "bw" => \A celt \in BOOLEAN :
+       LET bs == BwSetOf(gm, S, I, celt) IN
        /\ bs # {} /\ bs \subseteq BwSet
        /\ (I.lfe = 0 => \A b \in bs : b <= BwCap(IF celt THEN MODE_CELT ELSE MODE_SILK, nyq))       \* Nyquist
        /\ (celt => BW_MB \notin bs)
@@ -230,17 +241,17 @@ RuleTheorems ==
              bs = {BwCap(IF celt THEN MODE_CELT ELSE MODE_SILK,
                          Min(Min(S.userBandwidth, nyq), IF ~celt /\ I.rateLow THEN BW_WB ELSE BW_FB))})
        \* the maximum bandwidth binds the automatic choice
-       /\ (S.userBandwidth = OPUS_AUTO /\ I.lfe = 0 /\ (celt \/ M.first = 1) =>
+       /\ (S.userBandwidth = OPUS_AUTO /\ I.lfe = 0 /\ (celt \/ gm.first = 1) =>
              \A b \in bs : b <= BwCap(IF celt THEN MODE_CELT ELSE MODE_SILK, S.maxBandwidth))
        /\ (~celt /\ I.rateLow /\ I.lfe = 0 => \A b \in bs : b <= BW_WB)
-  /\ \A hw \in BOOLEAN :
+  /\ last.fam = "want" => \A hw \in BOOLEAN :
        LET w == WantCelt(S, I, hw) IN
        /\ (S.application = APP_LOWDELAY \/ I.q < 4 \/ I.lfe = 1 => w)
        /\ (S.application # APP_LOWDELAY /\ I.q >= 4 /\ I.lfe = 0 /\ S.forcedMode # OPUS_AUTO => (w <=> S.forcedMode = MODE_CELT))
        /\ (S.application # APP_LOWDELAY /\ I.q >= 4 /\ I.lfe = 0 /\ S.forcedMode = OPUS_AUTO /\ ~I.belowT => (w <=> hw))
-  /\ (~(last.one /\ I.q = 40)) =>
-       LET p == LowPacket(M, I.q, last.one) IN
-       /\ p.nf * p.fq = I.q /\ p.ch = M.sch
+  /\ (last.fam = "low" /\ ~(last.one /\ I.q = 40)) =>
+       LET p == LowPacket(gm, I.q, last.one) IN
+       /\ p.nf * p.fq = I.q /\ p.ch = gm.sch
        /\ (p.code = 0 <=> p.nf = 1) /\ (p.code = 1 <=> p.nf = 2) /\ (p.code = 3 <=> p.nf > 2)
        /\ (p.mode = MODE_SILK => (p.fq \in {4, 8, 16, 24} /\ p.bw <= BW_WB))
        /\ (p.mode = MODE_HYBRID => (p.fq \in {4, 8} /\ p.bw >= BW_SWB))
@@ -249,22 +260,22 @@ RuleTheorems ==
 
 -----------------------------------------------------------------------------
 (* Behaviour generation.                                                   *)
-InitGen == /\ cfg \in Configs /\ M = MInit(cfg[2]) /\ D = DInit /\ last = None /\ hist = <<>>
+InitGen == /\ gc \in Configs /\ gm = MInit(gc[2]) /\ gd = DInit /\ last = None /\ hist = <<>>
 Kind(op) == op[1]
+\* a schedule is a sequence of settings changes; the replay codes a short run of audio before the first and after
+\* every change (signal classes are drawn by the runner)
 NextGen == /\ Len(hist) < Depth
-         /\ \E op \in GenOps :
-              /\ (hist # <<>> /\ Kind(op) # "e") => Kind(hist[Len(hist)]) # Kind(op)      \* no two settings of a kind in a row
-              /\ (Len(hist) = Depth - 1 => Kind(op) = "e")                                  \* a schedule ends with audio
-              /\ hist' = Append(hist, op)
-         /\ UNCHANGED <<cfg, M, D, last>>
-EmitG == (Len(hist) = Depth) => PrintT("SCHED " \o ToString(<<cfg, hist>>))
+           /\ \E op \in GenOps :
+                /\ (hist # <<>> => Kind(hist[Len(hist)]) # Kind(op))      \* no two settings of a kind in a row
+                /\ hist' = Append(hist, op)
+           /\ UNCHANGED <<gc, gm, gd, last>>
+EmitG == (Len(hist) = Depth) => PrintT("SCHED " \o ToString(<<gc, hist>>))
 
-\* alphabets (cfg files cannot hold tuples inside sets)
+\* alphabets (gc files cannot hold tuples inside sets)
 OpsQuick == {<<"fm", 1000>>, <<"fm", 1002>>, <<"fm", -1000>>, <<"fc", 1>>, <<"fc", -1000>>,
              <<"q", 2>>, <<"q", 8>>, <<"q", 24>>, <<"q", 48>>, <<"bud", 0>>, <<"bud", 1>>, <<"bud", 2>>,
-             <<"rate", 12>>, <<"rate", 96>>, <<"rs", 0>>,
-             <<"e", 1>>, <<"e", 3>>}
+             <<"rate", 12>>, <<"rate", 96>>, <<"rs", 0>>}
 OpsThorough == OpsQuick \cup {<<"fm", 1001>>, <<"fc", 2>>, <<"q", 1>>, <<"q", 4>>, <<"q", 16>>, <<"q", 32>>, <<"q", 40>>,
                               <<"rate", 24>>, <<"rate", 40>>, <<"bw", 1101>>, <<"bw", 1103>>, <<"bw", 1105>>, <<"bw", -1000>>,
-                              <<"dtx", 1>>, <<"e", 0>>, <<"e", 2>>}
+                              <<"dtx", 1>>, <<"cbr", 0>>}
 =============================================================================
